@@ -54,6 +54,12 @@ func main() {
 			fmt.Println(err)
 			os.Exit(1)
 		}
+		w.AllFuncs()
+		theWorld = w
+		if err := writeBaselineSigs(w, filepath.Join(filepath.Dir(*wb), "baseline_sigs.json")); err != nil {
+			fmt.Println(err)
+			os.Exit(1)
+		}
 		return
 	}
 	if *anchors {
@@ -157,6 +163,7 @@ func main() {
 			}()
 			d.run(w, r)
 			genericRules(w, r, id)
+			sigRules(w, r, id)
 			if *tier == "thorough" && os.Getenv("VERIF_NOSELFVAL") == "" {
 				t2 := time.Now()
 				sv := selfValidate(w, *verif, id)
